@@ -259,3 +259,37 @@ package internal
 //@ ensures inf: fv(p.z) == 0 ==> len(result) == 1 && result[0] == 0
 //@ ensures fin: fv(p.z) != 0 ==> len(result) == 65 && result[0] == 4 && be(result[1:33]) == (fv(p.x) * invmod(fv(p.z), P)) % P && be(result[33:65]) == (fv(p.y) * invmod(fv(p.z), P)) % P
 //@ assigns out[0:65]
+
+// ---------------------------------------------------------------------------------------------
+// Exponent contracts (property C14): the comb evaluates to [sum_j k_j 2^j]G. The scalar is 256 symbolic bits, a
+// point is its discrete logarithm as a polynomial in those bits; the loop structure, window indices, doublings and
+// the skip logic are executed by `govc ring` (exponent interpreter). Lemmas used: the table clauses below (every
+// entry is enumerated against the stated multiple of G in C18), exact window extraction (proved, bit-vector
+// contracts above), masked selection = the selected entry or infinity (stand-in), group law of Add/Double (C15).
+// ---------------------------------------------------------------------------------------------
+//@ func sm2/internal.ScalarBaseMult#gexp
+//@ gexp_scalar k
+//@ gexp_table sm2Precomputed_6_3_14 dims=j window=6 weight=42*t+14*j+4
+//@ gexp_table sm2Precomputed_6_3_14_Remainder window=4 weight=t
+
+//@ func sm2/internal.scalarBaseMult_SkipBitExtraction_5_3_17#gexp
+//@ gexp_scalar k
+//@ gexp_table sm2Precomputed_5_3_17 dims=j window=5 weight=51*t+17*j+1
+//@ gexp_table sm2Precomputed_5_3_17_Remainder window=1 weight=t
+
+//@ func sm2/internal.scalarBaseMult_SkipBitExtraction_4_2_32#gexp
+//@ gexp_scalar k
+//@ gexp_table sm2Precomputed_4_2_32 dims=j window=4 weight=64*t+32*j
+
+//@ func sm2/internal.scalarBaseMult_SkipBitExtraction_7_3_12#gexp
+//@ gexp_scalar k
+//@ gexp_table sm2Precomputed_7_3_12 dims=j window=7 weight=36*t+12*j+4
+//@ gexp_table sm2Precomputed_7_3_12_Remainder window=4 weight=t
+
+// Variable-point multiplication: the point P has exponent 1; the byte loop is proved by induction
+// (accumulator E becomes 256 E + b for a symbolic byte b, from the entry state and from the general state),
+// so the result is [V]P with V the big-endian value of the scalar of any length.
+//@ func sm2/internal.ScalarMult#gexp
+//@ gexp_scalar scalar
+//@ gexp_base P
+//@ gexp_loop byte
